@@ -439,8 +439,9 @@ def _write_longstring(file: IO[str], extended: bool, text: str, *, indent: str) 
         sections.append(f'"{remaining[:split_pos]}"')
         remaining = remaining[split_pos:]
 
-    # Lastly add any remaining text that didn't get split off.
-    if remaining:
+    # Lastly add any remaining text that didn't get split off. An empty string still needs its
+    # quotes, otherwise the parser continues the colon list on the following line.
+    if remaining or not sections:
         sections.append(f'"{remaining}"')
 
     file.write((' +\n' + indent).join(sections))
